@@ -18,11 +18,11 @@ MODEL_FILES = ['Model/Cache', 'Model/Sched', 'Corr/Cache', 'Corr/Sched']
 GENERATED_DEPS = ['CacheOps.v']
 COQ_HEADER = ('From Coq Require Import String ZArith List.\nImport ListNotations.\n'
               'From Glom Require Import Base.PyVal Model.TEval Model.Cache Model.Sched Corr.Cache Corr.Sched.\nLocal Open Scope string_scope.\n')
-CHECK_FN = 'sc_check'
+CHECK_FN = 'any_check'
 RULE = ('(a) dict-operation interleavings: 2-3 real threads each making 1-3 Path.from_text calls over a small alphabet, Path._CACHE '
         'replaced by dicts whose __contains__ / __len__ / __setitem__ / __getitem__ are yield points of a deterministic scheduler, '
         '_MAX_CACHE 0..3, random schedules and (thorough tier) ALL interleavings of two single-call threads, replayed step by step on the '
-        'Coq machine: every returned Path and the final key order. (b) call interleavings: 2-3 concurrent glom evaluations of '
+        'Coq machine: every returned Path and the final key order; the same for TargetRegistry.get_handler on a fresh registry whose _type_cache is such a dict (no length test, failed lookups not stored): every returned handler and the final key order. (b) call interleavings: 2-3 concurrent glom evaluations of '
         'type-directed specs with up to 4 yield points each planted as callables at random evaluation positions, driven through random '
         'and (for two calls with <= 3 yield points) all interleavings; every call\'s value / exception class / full error-trace text compared with '
         'the same call run alone; a third of these share ONE spec object between the calls, with a dict / list literal in argument position around the yield point. (c) re-entrancy (also a callable re-entering glom with the very spec object it belongs to, over trees): glom called from a callable inside a running glom call, nested to depth 3, inner '
@@ -69,6 +69,51 @@ def run_dictops(case):
         out['keys'] = list(dict.keys(P._CACHE[case['star']]))
     finally:
         P._CACHE, P._MAX_CACHE, core.PATH_STAR, P._STAR_WARNED = saved
+    return out
+
+
+# ---------- (a') the registry memo under the same scheduler ----------
+class _U:
+    pass
+
+
+REG_OBJS = {'dict': lambda: {}, 'list': lambda: [], 'tuple': lambda: (), 'int': lambda: 5, 'str': lambda: 'x', '_U': lambda: _U(),
+            'OrderedDict': lambda: __import__('collections').OrderedDict()}
+
+
+def _tag(h):
+    return getattr(h, '__name__', None) or repr(h)[:30]
+
+
+def _lookup(reg, key):
+    tname, op = key.split('|')
+    import glom
+    try:
+        return _tag(reg.get_handler(op, REG_OBJS[tname]()))
+    except glom.core.UnregisteredTarget:
+        return None
+
+
+def run_regops(case):
+    import glom.core as core
+    keys = sorted({k for th in case['threads'] for k in th})
+    fresh = {k: _lookup(core.TargetRegistry(), k) for k in keys}       # a registry that is never looked at twice
+    reg = core.TargetRegistry()
+    ctl = sched.Controller()
+    reg._type_cache = sched.SchedDict(ctl)
+
+    def worker(ks):
+        return lambda: [_lookup(reg, k) for k in ks]
+    ctl.start([worker(ks) for ks in case['threads']])
+    for tid in case['schedule']:
+        ctl.grant(tid)
+    for tid in range(len(case['threads'])):
+        ctl.finish(tid)
+    ctl.join()
+    out = {'answers': [[k, fresh[k]] for k in keys],
+           'seen': [ctl.results.get(tid) for tid in range(len(case['threads']))],
+           'errors': {str(k): type(v).__name__ for k, v in ctl.errors.items()},
+           'keys': ['%s|%s' % (t.__name__, op) for (t, op) in dict.keys(reg._type_cache)]}
     return out
 
 
@@ -295,6 +340,8 @@ def run_impl(case):
     k = case['kind']
     if k == 'dictops':
         return run_dictops(case)
+    if k == 'regops':
+        return run_regops(case)
     if k == 'calls':
         return run_calls(case)
     if k == 'reentrant':
@@ -413,6 +460,16 @@ def gen_reentrant(rng):
     return {'kind': 'reentrant', 'target': t, 'levels': levels}
 
 
+def gen_regops(rng):
+    nt = rng.choice([2, 2, 3])
+    names = list(REG_OBJS)
+    threads = [['%s|%s' % (rng.choice(names), rng.choice(['get', 'iterate', 'keys'])) for _ in range(rng.randint(1, 3))] for _ in range(nt)]
+    if rng.random() < 0.5:
+        threads[1][0] = threads[0][0]                      # a race for the same key
+    steps = sum(3 * len(t) for t in threads)
+    return {'kind': 'regops', 'threads': threads, 'schedule': [rng.randint(0, nt - 1) for _ in range(rng.randint(0, steps))]}
+
+
 def gen_dictops(rng):
     nt = rng.choice([2, 2, 3])
     threads = [[rng.choice(TEXTS) for _ in range(rng.randint(1, 3))] for _ in range(nt)]
@@ -429,7 +486,7 @@ def corpus():
 
 def generate(rng, tier):
     n_dict, n_calls, n_re = (700, 160, 260) if tier == 'quick' else (5000, 1500, 2500)
-    out = [gen_dictops(rng) for _ in range(n_dict)]
+    out = [gen_dictops(rng) for _ in range(n_dict)] + [gen_regops(rng) for _ in range(n_dict // 3)]
     if tier != 'quick':
         # all interleavings of two single-call threads (at most 4 steps each), for every pair of texts and small limits
         for a, b in [('a', 'a'), ('a', 'b'), ('a.*', 'a.*')]:
@@ -452,29 +509,40 @@ def generate(rng, tier):
 
 
 # ---------- Coq side ----------
-TRIVIAL = '(mkSC 0 true [] [] [] [])'
+TRIVIAL = '(APath (mkSC 0 true [] [] [] []))'
+
+
+def _rv(v):
+    return 'None' if v is None else '(Some %s)' % cstr(v)
 
 
 def coq_case(case, out):
+    if case['kind'] == 'regops' and not ('harness_error' in out or 'harness_timeout' in out or out.get('errors')):
+        return '(AReg (mkRC %s %s %s %s %s))' % (
+            clist('(%s, %s)' % (cstr(k), _rv(v)) for k, v in out['answers']),
+            clist(clist(cstr(k) for k in th) for th in case['threads']), clist(cnat(i) for i in case['schedule']),
+            clist(clist(_rv(v) for v in th) for th in out['seen']), clist(cstr(k) for k in out['keys']))
     if case['kind'] != 'dictops' or 'harness_error' in out or 'harness_timeout' in out or out.get('errors'):
         return TRIVIAL
     seen = clist(clist('(%s, %s)' % (cstr(c), clist(cstr(x) for x in s)) for c, s in th) for th in out['seen'])
-    return '(mkSC %s %s %s %s %s %s)' % (cz(case['max']), cbool(case['star']), clist(clist(cstr(t) for t in th) for th in case['threads']),
-                                         clist(cnat(i) for i in case['schedule']), seen, clist(cstr(k) for k in out['keys']))
+    return '(APath (mkSC %s %s %s %s %s %s))' % (cz(case['max']), cbool(case['star']), clist(clist(cstr(t) for t in th) for th in case['threads']),
+                                                clist(cnat(i) for i in case['schedule']), seen, clist(cstr(k) for k in out['keys']))
 
 
 def model_dump_term(case):
+    if case['kind'] == 'regops':
+        return 'any_model %s' % coq_case(case, {'answers': [], 'seen': [[] for _ in case['threads']], 'keys': []})
     if case['kind'] != 'dictops':
         return '0'
-    return 'sc_model %s' % coq_case(case, {'seen': [[] for _ in case['threads']], 'keys': []})
+    return 'any_model %s' % coq_case(case, {'seen': [[] for _ in case['threads']], 'keys': []})
 
 
 def direct_oracle(case, out):
     if 'harness_error' in out or 'harness_timeout' in out:
         return 'the schedule could not be driven: %s' % (out.get('harness_error') or 'timeout')
-    if case['kind'] == 'dictops':
+    if case['kind'] in ('dictops', 'regops'):
         if out.get('errors'):
-            return 'a thread failed inside Path.from_text: %r' % out['errors']
+            return 'a thread failed inside the shared memo: %r' % out['errors']
         return None
     if out.get('problems'):
         return '; '.join(out['problems'][:2])
@@ -489,6 +557,8 @@ def classify(case, out):
     k = case['kind']
     if k == 'dictops':
         return 'dictops:%d-threads:max%d' % (len(case['threads']), case['max'])
+    if k == 'regops':
+        return 'regops:%d-threads' % len(case['threads'])
     if k == 'calls' and case.get('shared_spec'):
         return 'shared-spec:%d:%s' % (len(case['calls']), '/'.join(out.get('kinds', [])))
     if k == 'calls':
